@@ -24,8 +24,14 @@ ASSUMPTIONS = [
     "because the compiled map is affine, equality of all n coefficients and the constant with the exact reference is "
     "equivalent to A.x - b = lhs(x) - rhs(x) for every x",
     "specifications that are affine only after cancellation (x*y - x*y, (x - x)*y, x/(y - y + 2)), divide by a constant "
-    "that is exactly zero, or put a sign directly after another operator ('x = -2', 'x * -2': the tokenizer lexes '=-' "
-    "as one operator) are UNSPECIFIED: rejection is accepted, a returned map must still be the right one",
+    "that is exactly zero, or put a unary sign directly after a BINARY ARITHMETIC operator or another sign ('2 * -x', "
+    "'x - -y', 'x = - -2': the property's grammar is silent on signs in operand position and the library rejects them with "
+    "its parsing error) are UNSPECIFIED: rejection is accepted, a returned map must still be the right one",
+    "a unary sign at the head of a constraint is specified wherever a constraint can start: at the start of the string, "
+    "after '(', after '=' ('x = -2') and after ',' ('x, -y'), hence also at the start of a list entry (a list is its entries "
+    "joined by ',') and of a mapping key: all three forms must accept it and agree",
+    "exponent notation ('1e3': the documented numeric literal is [0-9]+\\.[0-9]+, the tokenizer reads '1e3' as a name) and "
+    "chained '=' ('x = y = z') have no documented meaning: UNSPECIFIED, outcome only recorded (sub-check unspecified-probes)",
     "'provably non-affine' is decided by a non-zero exact second difference of lhs - rhs along one of 15 lines; a "
     "non-linear specification for which every probed second difference vanishes is classed UNSPECIFIED (sound, "
     "never demands the rejection of an affine function)",
@@ -191,7 +197,8 @@ def check_spec(col, spec, cons, adjacent, naming_key, tag, nontrivial=True):
               "reference": [repr(k) for k in classes], "formulaic": got[:3] if got[0] == "EXC" else ("OK", got[1].tolist(), got[2].tolist()),
               "repro": repro(spec, names, NAMINGS[naming_key][1] if ms is not None else None)}
     if adjacent:
-        col.count("unspecified-adjacent-operators-" + ("accepted" if got[0] == "OK" else "rejected"))
+        label = adjacent if isinstance(adjacent, str) else "sign-after-arithmetic-operator"
+        col.count("unspecified-%s-%s" % (label, "accepted" if got[0] == "OK" else "rejected:" + got[1]))
     elif "REJECT" in kinds:
         if nontrivial:
             col.interesting()
@@ -294,25 +301,27 @@ def drv_expr(c, ctx, col):
         k = ctx["kmin"] + c.upto(ctx["k"] - ctx["kmin"])
         lhs = gen_tree(c, k, ctx["leaves"])
         rhs = None
+    neg_rhs = False
     if ctx.get("combos"):
         style, spaced, naming, neg = c.pick(ctx["combos"])
     else:
         style, spaced, naming = c.pick(ctx["variants"])
         neg = c.flag() if ctx.get("neg", True) else False
+    if rhs is not None and ctx.get("neg_rhs"):
+        neg_rhs = c.flag()  # a unary minus directly after '=' (the tokenizer sees '=-')
     toks_map, names, ms = resolve_naming(naming)
     tokens = render(lhs, style, toks_map)
     if rhs is not None:
-        tokens = tokens + ["="] + render(rhs, style, toks_map)
-    base_tokens = tokens
+        tokens = tokens + ["="] + (["-"] if neg_rhs else []) + render(rhs, style, toks_map)
     if neg:
         tokens = ["-"] + tokens
     spec = join(tokens, spaced)
     cons, adjacent = reference_constraints(tokens, toks_map)
     if adjacent:
         raise HarnessError("unexpected adjacent operators in %r" % (spec,))
-    if not neg:
+    if not neg and not neg_rhs:
         selfcheck(cons, [(lhs, rhs)], toks_map, names)
-    check_spec(col, spec, cons, False, naming, "expr", nontrivial=(k > 0 or neg))
+    check_spec(col, spec, cons, False, naming, "expr", nontrivial=(k > 0 or neg or neg_rhs))
     col.sample({"spec": spec, "variable_names": names})
 
 
@@ -337,6 +346,9 @@ POOL_EXTRA = [
     (("+", X, ("*", "3", ("/", ("-", ("+", X, Y), Y), "3"))), X),            # x + 3*(x+y-y)/3 = x
     (("-", ("+", X, Y), "10"), "0"),
     (("neg", ("+", X, "1")), ("/", Y, "0.5")),
+    (("neg", X), None),                                                      # a head sign: after ',' when it is a later entry
+    (X, ("neg", "2")),                                                       # x = -2: a sign directly after '='
+    (("neg", Y), ("pos", X)),                                                # -y = +x
     (("*", ("+", X, "1"), ("+", Y, "1")), None),                             # non-linear
     (("/", "1", ("-", X, X)), None),                                         # unspecified
 ]
@@ -437,6 +449,34 @@ def drv_unary(c, ctx, col):
     col.sample({"spec": spec, "variable_names": names, "adjacent_operators": adjacent})
 
 
+# inputs on which the property's grammar / the documentation is silent: outcome recorded, a returned map must be right
+PROBES = [
+    ("sign-after-arithmetic-operator", "2 * - x", None), ("sign-after-arithmetic-operator", "x - - y", None),
+    ("sign-after-arithmetic-operator", "x + + y", None), ("sign-after-arithmetic-operator", "x - 2 * - 3", None),
+    ("sign-after-arithmetic-operator", "x / - 2", None), ("sign-after-arithmetic-operator", "x = - - 2", None),
+    ("sign-after-arithmetic-operator", "x = - + 2", None), ("sign-after-arithmetic-operator", "y , 2 * - x", None),
+    ("exponent-literal", "1e3 * x", "1000 * x"), ("exponent-literal", "1e3", "1000"), ("exponent-literal", "1e-3 * x", "0.001 * x"),
+    ("exponent-literal", "x = 1e3", "x = 1000"), ("exponent-literal", "2.5e0 * x + y", "2.5 * x + y"), ("exponent-literal", "x / 1E1", "x / 10"),
+    ("chained-equals", "x = y = z", False), ("chained-equals", "x = 1 = 2", False), ("chained-equals", "x = y = z = 1", False),
+    ("chained-equals", "x + 1 = y = 2 * z , x", False),
+]
+
+
+def drv_probes(c, ctx, col):
+    label, text, equiv = c.pick(PROBES)
+    spaced = not c.flag()
+    naming = c.pick(["xyz", "zyx"])
+    toks_map, names, ms = resolve_naming(naming)
+    spec = text if spaced else text.replace(" ", "")
+    if equiv is False:  # no documented meaning: only record what happens
+        got = call_impl(spec, names, ms)
+        col.count("unspecified-%s-%s" % (label, "accepted" if got[0] == "OK" else "rejected:" + got[1]))
+        return
+    cons, adjacent = reference_constraints((equiv or text).split(), toks_map)
+    check_spec(col, spec, cons, label, naming, "probe", nontrivial=False)
+    col.sample({"spec": spec, "class": label})
+
+
 LITERALS = ["0", "1", "2", "3", "10", "0.5", ".5", "2.", "1.0", "0.25", "100", "1.50"]
 LIT_TEMPLATES = [
     ["@", "*", "x"], ["x", "*", "@"], ["x", "/", "@"], ["x", "+", "@"], ["x", "=", "@"], ["@", "=", "x"],
@@ -495,6 +535,7 @@ def subchecks(tier, seed):
     pool3 = [
         (X, None), (Y, "2"), (("+", X, Y), None), (("-", Z, "1"), None), (("*", "2", X), Y), (("/", Y, "2"), "0.5"),
         (("-", X, Y), Z), ("1", "2"), (("*", X, Y), None), (("neg", Z), None), (("+", Z, "0.5"), X), (("/", "1", "0"), None),
+        (Y, ("neg", "2")),
     ]
     V = VARIANTS_LIGHT
     six, three = "x y z 1 2 0.5", "x y 2"
@@ -503,8 +544,9 @@ def subchecks(tier, seed):
                         shard_depth=3, bounds={"max_binary_operators": 2, "leaves": six, "variants": "4 (style, spacing, names) x head minus"}))
         subs.append(Sub("expr-3", drv_expr, {"eq": False, "k": 3, "kmin": 3, "leaves": LEAVES3, "variants": V[1:2], "neg": False},
                         shard_depth=4, bounds={"binary_operators": 3, "leaves": three, "variants": "full parentheses, spaced, names [z,y,x]"}))
-        subs.append(Sub("expr-eq", drv_expr, {"eq": True, "k": 2, "kmin": 0, "leaves": LEAVES3, "variants": V[:2]},
-                        shard_depth=4, bounds={"max_binary_operators_both_sides": 2, "leaves": three, "variants": "2 x head minus"}))
+        subs.append(Sub("expr-eq", drv_expr, {"eq": True, "k": 2, "kmin": 0, "leaves": LEAVES3, "variants": V[:1], "neg_rhs": True},
+                        shard_depth=4, bounds={"max_binary_operators_both_sides": 2, "leaves": three,
+                                               "variants": "min/spaced/xyz x minus at the head of the left side on/off x minus directly after '=' on/off"}))
         op, kl = OPS[seed % 4], (seed // 4) % 3
         lr = [LEAVES6[(seed // 12) % 6], LEAVES6[(seed // 12 + 1) % 6]]
         subs.append(Sub("expr-seed-slice", drv_expr,
@@ -529,6 +571,7 @@ def subchecks(tier, seed):
                                                        "namings": ["xyz", "ticked", "spec-numeric"], "values": VALUE_TYPES},
                         shard_depth=2, bounds={"constraints": 1, "pool": len(pool2), "forms": ["mapping"],
                                                "mapping_values": [repr(v) for v in VALUE_TYPES], "namings": ["xyz", "ticked", "spec-numeric"]}))
+        subs.append(Sub("unspecified-probes", drv_probes, {}, shard_depth=1, bounds={"probes": [p[1] for p in PROBES]}))
         subs.append(Sub("literals", drv_literals, {"literals": LITERALS[:8]}, shard_depth=2, bounds={"literals": LITERALS[:8]}))
     else:
         subs.append(Sub("expr", drv_expr, {"eq": False, "k": 3, "kmin": 0, "leaves": LEAVES6,
@@ -539,8 +582,9 @@ def subchecks(tier, seed):
                         shard_depth=4, bounds={"max_binary_operators": 3, "leaves": six, "variants": "full parentheses, spaced, names [z,y,x]"}))
         subs.append(Sub("expr-4", drv_expr, {"eq": False, "k": 4, "kmin": 4, "leaves": LEAVES3, "variants": V[2:3], "neg": False},
                         shard_depth=5, bounds={"binary_operators": 4, "leaves": three, "variants": "minimal parentheses, compact, names [z,y,x]"}))
-        subs.append(Sub("expr-eq", drv_expr, {"eq": True, "k": 3, "kmin": 0, "leaves": LEAVES3, "variants": V[:1]},
-                        shard_depth=5, bounds={"max_binary_operators_both_sides": 3, "leaves": three, "variants": "1 x head minus"}))
+        subs.append(Sub("expr-eq", drv_expr, {"eq": True, "k": 3, "kmin": 0, "leaves": LEAVES3, "variants": V[:1], "neg_rhs": True},
+                        shard_depth=5, bounds={"max_binary_operators_both_sides": 3, "leaves": three,
+                                               "variants": "min/spaced/xyz x minus at the head of the left side on/off x minus directly after '=' on/off"}))
         subs.append(Sub("expr-eq-6", drv_expr, {"eq": True, "k": 2, "kmin": 0, "leaves": LEAVES6, "variants": V[1:3], "neg": False},
                         shard_depth=4, bounds={"max_binary_operators_both_sides": 2, "leaves": six, "variants": "2"}))
         subs.append(Sub("forms", drv_forms, {"pool": pool2, "n": 2, "nmin": 1, "namings": list(NAMINGS), "styles": ["min"],
@@ -558,5 +602,6 @@ def subchecks(tier, seed):
                                                        "namings": ["xyz", "ticked", "spec-numeric"], "values": VALUE_TYPES},
                         shard_depth=2, bounds={"constraints": "1..2", "pool": len(pool3), "forms": ["mapping"],
                                                "mapping_values": [repr(v) for v in VALUE_TYPES], "namings": ["xyz", "ticked", "spec-numeric"]}))
+        subs.append(Sub("unspecified-probes", drv_probes, {}, shard_depth=1, bounds={"probes": [p[1] for p in PROBES]}))
         subs.append(Sub("literals", drv_literals, {"literals": LITERALS}, shard_depth=2, bounds={"literals": LITERALS}))
     return subs
